@@ -46,3 +46,33 @@ def encOutcome : Outcome → String
   | .panic w => s!"(panic {w})"
 
 end Restful.Driver
+
+namespace Restful.Driver
+open SExp
+
+def decParam (e : SExp) : Option (Str × Str) := do
+  match ← args "p" e with
+  | [k, v] => pure (← asStr k, ← asStr v)
+  | _ => none
+
+def decOutcome : SExp → Option Outcome
+  | .list (.atom "sel" :: s :: r :: ps) => do pure (.selected (← asNat s) (← asNat r) (← ps.mapM decParam))
+  | .list [.atom "err", c, .atom "-"] => do pure (.error (← asNat c) none)
+  | .list [.atom "err", c, a] => do pure (.error (← asNat c) (some (← strs "allow" a)))
+  | .list (.atom "panic" :: _) => some (.panic "real")
+  | _ => none
+
+/-- what the harness observed: outcome, `SelectedRoutePath()` in the handler, invocation count -/
+structure Real where
+  outcome : Outcome
+  selPath : Str
+  invocations : Nat
+
+def decReal (e : SExp) : Option Real := do
+  match ← args "real" e with
+  | [o, sp, n] => pure ⟨← decOutcome o, ← asStr sp, ← asNat n⟩
+  | _ => none
+
+def specLine (id : String) (ok : Bool) : String := s!" (spec {id} {if ok then 1 else 0})"
+
+end Restful.Driver
